@@ -15,10 +15,11 @@ Context {V : Type} (o : ops V).
 
 Inductive cumop := CSum | CMin | CMax | CCount.
 
-(* "nan" + operation if skip_na else operation *)
-Definition cum_reducer (op : cumop) (skip_na : bool) : rname :=
+(* "nan" + operation if skip_na else operation; the plain sum of a timestamp / timedelta column
+   (temporal = orig_dtype.kind in "mM") is replaced by the null-keeping one *)
+Definition cum_reducer (temporal : bool) (op : cumop) (skip_na : bool) : rname :=
   match op, skip_na with
-  | CSum, true => Rnansum | CSum, false => Rsum
+  | CSum, true => Rnansum | CSum, false => if temporal then Rnullsum else Rsum
   | CMin, true => Rnanmin | CMin, false => Rmin
   | CMax, true => Rnanmax | CMax, false => Rmax
   | CCount, true => Rnancount | CCount, false => Rcount
@@ -36,10 +37,13 @@ Definition cum_step (rf : @reducer V) (cell : V * Z) (row : V * bool) : (V * Z) 
   if sel then let ac := rf (fst cell) v (snd cell) in (ac, fst ac)
   else (cell, fst cell).
 
-Definition cumulative (op : cumop) (skip_na : bool) (gk : list Z) (vals : list V)
+Definition cumulative_t (temporal : bool) (op : cumop) (skip_na : bool) (gk : list Z) (vals : list V)
     (ngroups : nat) (mask : option (list bool)) : list V :=
   let rows := mk_rows gk vals mask in
-  kscan (cum_init op, 0) (cum_step (reducer_of o (cum_reducer op skip_na))) (cum_na op)
+  kscan (cum_init op, 0) (cum_step (reducer_of o (cum_reducer temporal op skip_na))) (cum_na op)
         rows (repeat (cum_init op, 0) ngroups).
+
+(* numeric (non-temporal) columns *)
+Definition cumulative := cumulative_t false.
 
 End Cum.
